@@ -207,9 +207,7 @@ fn cmd_run(m: BTreeMap<String, String>) -> i32 {
         while i < to {
             let seed = rng::run_seed(master, &format!("{}/{}/{}", check, engine, family), i);
             // heartbeat: which run is about to start (read by the supervisor after a crash)
-            if let Ok(mut f) = std::fs::File::create(&hb_path) {
-                let _ = writeln!(f, "{} {}", i, seed);
-            }
+            common::heartbeat_start(&hb_path, i, seed);
             let scn = generate(&engine, &family, &prop, &tier, seed);
             // wall time is measured for the evidence only (margin to the hang detector); it never
             // decides anything
@@ -334,6 +332,10 @@ fn same_class(v: &Violation, e: &Violation) -> bool {
 fn cmd_replay(path: &str) -> i32 {
     let (rf, scn) = load_replay(path);
     common::install_panic_hook();
+    // supervision only: lets the driver tell a replay that is slow from one that is stuck
+    if let Ok(hb) = std::env::var("TERASIM_HB") {
+        common::heartbeat_start(&hb, rf.run_index, rf.run_seed);
+    }
     if rf.prelude {
         // re-create the process state the finding worker was in: its earlier runs, in order
         if let Some(w) = &rf.worker {
@@ -501,6 +503,32 @@ fn main() {
                             let t0 = std::time::Instant::now();
                             let r = t.render(&n, c);
                             println!("{} ctx{} steps={} ms={} out={}", n, ci, engine::steps_total() - s0, t0.elapsed().as_millis(), r.map(|s| s.len() as i64).unwrap_or(-1));
+                        }
+                    }
+                });
+            }
+            0
+        }
+        "dbg-cost-render" => {
+            // terasim dbg-cost-render <replay>: time / steps / bytes / write calls of every
+            // target x context of a rendersim scenario under a perfect writer
+            let (_rf, scn) = load_replay(&args[2]);
+            if let Scn::Render(sc) = scn {
+                on_big_stack(move || {
+                    engine::install_hooks();
+                    let mut t = engine::new_tera(&sc.config);
+                    if let Err(e) = t.add_raw_templates(sc.templates.iter().map(|(a, b)| (a.as_str(), b.as_str()))) {
+                        println!("ADD ERR {}", e);
+                        return;
+                    }
+                    let ctxs: Vec<tera::Context> = sc.contexts.iter().map(|c| c.to_context()).collect();
+                    for (ti, target) in sc.targets.iter().enumerate() {
+                        for (ci, c) in ctxs.iter().enumerate() {
+                            let s0 = engine::steps_total();
+                            let t0 = std::time::Instant::now();
+                            let mut w = writer::SimWriter::new(writer::WPlan::perfect());
+                            let r = rendersim::run_target(&t, target, c, &mut w);
+                            println!("target {} ctx {} steps={} us={} calls={} bytes={} ok={}", ti, ci, engine::steps_total() - s0, t0.elapsed().as_micros(), w.stats.calls, w.accepted.len(), r.is_ok());
                         }
                     }
                 });
